@@ -21,6 +21,10 @@ CLAIMED = {
    "deterministic simulation: loop/growth-biased programs under resource exhaustion, bounded-liveness (returns within L steps, watchdog) and safety invariants at every step boundary, limit sweeps against the stepped run",
    "Seeded search over growth-biased programs x capacities x step-limit sweeps; monitored invariants: returns without panic/hang, Err only for overflow exactly where the model says a stack would overflow, sizes <= maxima, state(L) == stepped state(min(L,T)). Sampled.",
    "Trusted: pushmodel for 'would overflow'; nesting depth bounded (stated in evidence assumptions)."),
+ "C10": ("rngsim", "exploration", "DESIGN §5 C10",
+   "deterministic simulation through the rng seam: tagged parents recombined under seeded and boundary-word (adversarial) random streams; exhaustive small-scope enumeration of the exchange primitives; seeded reachability experiment for every segment",
+   "Exact per-run oracles on tagged genes (length, position-wise origin, contiguity, documented errors, no panic) over seeded/adversarial streams; crossover_gene/crossover_segment enumerated for all length pairs <= 5 x all indices/ranges incl. inverted; every segment of every length <= 6 must occur in N seeded runs (absence has probability < 1e-440 and is treated as exact).",
+   "Trusted: the tagged-gene observation; empty/inverted ranges outside the genomes may be Ok-no-op or Err (statement silent), never a panic or a changed genome."),
 }
 
 NOT_APPLICABLE = {
@@ -34,6 +38,7 @@ PENDING_REASON = "check not built yet in this round (planned, see DESIGN §5); n
 ENGINES = [
  {"name": "simcore", "path": "sim/simcore", "serves_properties": sorted(CLAIMED), "kind_free_text": "seeded runner (one integer decides everything), SimRng owned random stream with boundary-word fault mode, minimiser, replay files, evidence writer, KL decision rule"},
  {"name": "vmsim", "path": "sim/checks/src/vmsim.rs", "serves_properties": ["C01", "C02", "C03"], "kind_free_text": "Push VM simulator: harness-stepped and real-loop execution of the real interpreter, resource-fault schedules, pushmodel reference interpreter (sim/checks/src/pushmodel.rs)"},
+ {"name": "rngsim", "path": "sim/checks/src/bin", "serves_properties": ["C10"], "kind_free_text": "single calls / short histories of selectors, mutators, recombinators and generators driven by the owned SimRng stream with probe components; exact per-run oracles plus seeded statistical experiments"},
  {"name": "stacksim", "path": "sim/checks/src/bin/c04.rs", "serves_properties": ["C04"], "kind_free_text": "operation-history simulator for Stack<T> against a Vec+capacity model"},
 ]
 
